@@ -35,4 +35,7 @@ CHECKS = {
  'C11': dict(engine='PYSYM', technique='CrossHair symbolic execution of escape_byte_string / split_string_literal / escape_char / as_c_string_literal over symbolic byte-class selectors, against a reference ISO C literal lexer (trigraphs, escapes, concatenation)',
              text='For every byte string in the bounded families (all bytes len <= 1; len <= 3-4 over 19 byte classes; split_string_literal with limits 6..9 over all sequences of <= 4 escape tokens) the emitted C literal (plain, split, and MSVC char-array forms) is read back by the reference C lexer as exactly the original bytes.',
              note=_TB),
+ 'C03': dict(engine='GEN+CIR', technique='template kernels compiled by the real Cython; generated C + CMath.c helpers lowered with clang to LLVM IR and encoded as z3 bit-vector BMC formulas; one unsat query per obligation over ALL operand values; NIA lemmas for the floor/remainder closed forms; replay on a native build',
+             text='For each of the listed kernels (type x operator x divisor kind x cdivision) and for every value of the operands at full width: divisor != 0 and fitting result => the stored result equals the Python floor quotient / remainder (C truncation with cdivision on) with no error set; divisor == 0 with cdivision off => returns the error value with ZeroDivisionError set.',
+             note='Trusted: clang-14 front end + mem2reg, the IR->SMT translator (self-tested against the native build each run), z3, SMT-LIB division as C division. Programs are an enumerated family; within each the claim is for all inputs.', level='model_checking'),
 }
